@@ -71,12 +71,21 @@ def tagged_json(res, tag):
 
 
 def write_hists(res, path, limit=None):
+    """Copy the behaviours TLC printed (one JSON document per HIST line) to an ndjson file.
+    Only the outer TLC string literal is decoded; the inner JSON is passed through."""
     n = 0
     samples = []
     with open(path, "w") as f:
-        for h in res.hists():
-            f.write(json.dumps(h, separators=(",", ":")) + "\n")
+        for body in res.tagged("HIST"):
+            try:
+                inner = json.loads(body)
+            except Exception:
+                continue
+            if "\n" in inner:
+                inner = json.dumps(json.loads(inner), separators=(",", ":"))
+            f.write(inner + "\n")
             if n < 1:
+                h = json.loads(inner)
                 samples.append([{k: s[k] for k in ("a", "u", "k", "v", "v2", "out", "kv")} for s in h])
             n += 1
             if limit and n >= limit:
@@ -158,7 +167,10 @@ def judge(ctx, bads, defs_path, nval):
 
 
 def run(ctx):
+    import time
     thorough = ctx.tier == "thorough"
+    phases = {}
+    t_phase = time.time()
     workers = int(os.environ.get("VERIF_TLC_WORKERS", "0") or 0) or None
     states = trans = 0
     design = []
@@ -199,6 +211,8 @@ def run(ctx):
                                     "Window_CommitFlush is expected)" % r.violated)
     design += window
 
+    phases["design_s"] = round(time.time() - t_phase, 1)
+    t_phase = time.time()
     # ---- 2. behaviours replayed into the real table ---------------------------------
     plans = []
     if not thorough:
@@ -207,8 +221,8 @@ def run(ctx):
         plans.append(("nest_tx", dict(nkey=3, nval=2, ntx=2, depth=8, nest="tx", maxdirect=1, maxtxops=1), 50, 10))
         plans.append(("nest_set", dict(nkey=3, nval=2, ntx=2, depth=8, nest="set", maxdirect=2, maxtxops=2), 25, 10))
     else:
-        plans.append(("main", dict(nkey=3, nval=2, ntx=2, depth=16, nest=None, maxdirect=3, maxtxops=3), 2500, 18))
-        plans.append(("wide", dict(nkey=4, nval=3, ntx=3, depth=20, nest=None, maxdirect=4, maxtxops=3), 2500, 22))
+        plans.append(("main", dict(nkey=3, nval=2, ntx=2, depth=16, nest=None, maxdirect=3, maxtxops=3), 1500, 18))
+        plans.append(("wide", dict(nkey=4, nval=3, ntx=3, depth=20, nest=None, maxdirect=4, maxtxops=3), 1000, 22))
         plans.append(("free", dict(nkey=3, nval=3, ntx=2, depth=12, nest=None, maxdirect=12, maxtxops=12), 500, 14))
         plans.append(("nest_tx", dict(nkey=3, nval=2, ntx=3, depth=10, nest="tx", maxdirect=1, maxtxops=2), 300, 12))
         plans.append(("nest_set", dict(nkey=3, nval=2, ntx=2, depth=9, nest="set", maxdirect=2, maxtxops=2), 150, 11))
@@ -246,6 +260,8 @@ def run(ctx):
             mech["actions"][a] = mech["actions"].get(a, 0) + c
         # judge one representative per class first
         bads += [(hp, b, kw["nval"]) for b in bad]
+    phases["generate_replay_s"] = round(time.time() - t_phase, 1)
+    t_phase = time.time()
     by_nval = {}
     for hp, b, nv in bads:
         by_nval.setdefault(nv, []).append((hp, b))
@@ -260,12 +276,14 @@ def run(ctx):
                                or mech.get("nest_conflicts", 0) == 0):
         raise vlib.Inconclusive("vacuity: replay never exercised %s (mechanisms: %s)" % (missing, mech))
 
+    phases["judge_s"] = round(time.time() - t_phase, 1)
+    t_phase = time.time()
     # ---- 3. schedules the synchronous script cannot pause inside (thorough) -----------
     conc = []
     if thorough:
         out = ctx.path("conc.ndjson")
         rc, text, wall = ctx.go_test(MODULE, PKG, HARNESS, "^TestVerifGorpConcurrent$",
-                                     env={"VERIF_OUT": out, "VERIF_TRIALS": 4000}, tag="conc", timeout=1500)
+                                     env={"VERIF_OUT": out, "VERIF_TRIALS": 3000}, tag="conc", timeout=1500)
         conc = ctx.read_ndjson(out)
         if rc != 0 or not conc:
             raise vlib.Inconclusive("concurrent driver failed rc=%s:\n%s" % (rc, text[-2000:]))
@@ -279,7 +297,9 @@ def run(ctx):
                            "trials, e.g. %s" % (o["kind"], o["mode"], o["stale"], o["trials"], o.get("sample")),
                            {"concurrent": o, "cmd": "go test -tags verif -run TestVerifGorpConcurrent (see tools/props/c17.py)"})
 
+    phases["concurrent_s"] = round(time.time() - t_phase, 1)
     cov = {
+        "phase_wall_s": phases,
         "states": states, "transitions": trans,
         "traces_validated_against_impl": total,
         "samples": samples[:3],
